@@ -6,7 +6,7 @@
 #     verdict and trace hash exactly.
 set -e
 cd "$(dirname "$0")"
-R=build/runner_rt
+R=${VERIF_BUILD:-build}/runner_rt
 [ -x $R ] || ./build.sh rt
 mkdir -p build/tmp/selfcheck
 fail=0
